@@ -125,7 +125,7 @@ pub async fn run(cfg: RunCfg) -> RunResult {
                     let gens = snap.get(&region).cloned().unwrap_or_default();
                     let latest = gens.iter().next_back().map(|(g, v)| (*g, v.clone()));
                     let uniq = format!("{}-{}", actor, k);
-                    let choice = prng.below(9);
+                    let choice = prng.below(11);
                     let (what, touched, result): (String, Vec<u64>, Result<(), lance_core::Error>) = match (choice, &latest) {
                         (0 | 1, _) | (_, None) => {
                             let exp = latest.as_ref().map(|(_, (_, o))| o.clone());
@@ -161,6 +161,29 @@ pub async fn run(cfg: RunCfg) -> RunResult {
                         (7, Some((g, _))) => {
                             let r = update_mem_wal_owner(&mut ds, &region, *g, &format!("own-{}", uniq), None).await.map(|_| ());
                             ("owner".into(), vec![*g], r)
+                        }
+                        (9 | 10, Some(_)) => {
+                            // merge_insert that carries "this flushed generation is merged by me"
+                            let pick = gens.iter().find(|(_, (s, _))| *s == 2).or_else(|| gens.iter().next()).map(|(g, v)| (*g, v.clone())).unwrap();
+                            let r = async {
+                                use lance::dataset::{MergeInsertBuilder, WhenMatched as LWhenMatched, WhenNotMatched as LWhenNotMatched};
+                                let cols = default_cols();
+                                let kbase = 1000 + (actor as i64) * 100 + (k as i64) * 10;
+                                let rows: Vec<Row> = (0..2).map(|j| vec![Val::I(kbase + j), Val::I(kbase + j), Val::I(j), Val::S(format!("m{}", uniq)), Val::Null]).collect();
+                                let batch = rows_to_batch(&cols, &rows);
+                                let mut b = MergeInsertBuilder::try_new(Arc::new(ds.clone()), vec!["k".to_string()])?;
+                                b.when_matched(LWhenMatched::UpdateAll);
+                                b.when_not_matched(LWhenNotMatched::InsertAll);
+                                b.mark_mem_wal_as_merged(lance_index::mem_wal::MemWalId::new(&region, pick.0), &pick.1 .1).await?;
+                                let job = b.try_build()?;
+                                let schema = batch.schema();
+                                let reader = arrow_array::RecordBatchIterator::new(vec![Ok(batch)], schema);
+                                let (new, _stats) = job.execute_reader(Box::new(reader)).await?;
+                                ds = new.as_ref().clone();
+                                lance_core::Result::Ok(())
+                            }
+                            .await;
+                            ("merge-data".into(), vec![pick.0], r)
                         }
                         (_, Some(_)) => {
                             let r = trim_mem_wal_index(&mut ds).await;
